@@ -100,7 +100,7 @@ Ok(e) ==
     [] OTHER -> FALSE
 
 ModelOk(e) ==
-  CASE e.op = "chain64"   -> ChainShape(e, 7, 32)
+  CASE e.op = "chain64"   -> ChainShape(e, 7, 33)
     [] e.op = "chain1024" -> ChainShape(e, 63, 384)
     [] e.op = "is_valid"  -> e.okbad = L(e.n)!OnCurve(Cv(e), e.bad)
     [] e.op = "c128_is_valid" -> e.okbad = FALSE
